@@ -13,11 +13,13 @@ THEOREMS = [
     "C20_writer_same_rows",
     "C20_cells_agree_typed",
     "C20_agree_refuted",
+    "C20_responses_agree_refuted",
     "C20_arrow_paths_disagree_refuted",
     "C20_known_class_exact",
     "C20_agree_outside_known",
     "C20_error_status_same_body",
     "C20_http_status_same_refuted",
+    "C20_http_status_differs_for_short_errors",
     "C20_http_status_outside_known",
 ]
 RULE = ("ColumnBatch streams built with the real BatchPool (schemas over every logical type name of logical_to_arrow_type plus unknown, "
